@@ -10839,3 +10839,11 @@ pub mod verif {
         SctpInner::should_abandon(&r.to_record(Instant::now()))
     }
 }
+
+#[cfg(rustrtc_verif)]
+impl SctpTransport {
+    /// H2: `transmit_chunks_with_tag` (MTU batching + packet assembly) on already encoded chunks.
+    pub async fn verif_transmit_chunks(&self, chunks: Vec<Bytes>, tag: u32) -> Result<()> {
+        self.inner.transmit_chunks_with_tag(chunks, tag).await
+    }
+}
